@@ -3,7 +3,7 @@ CONSTANTS N = 54  Par = {"p", "q"}  NVal = 2  NGrid = 2  MaxDepth = 1  MaxLevel 
           GridSlot = "stack"  PickleSerial = "fresh"  DbSerial = "max"
 CONSTANTS Keeps <- KeepsNone  Acts <- ActsDbR  Parent0 <- ParentR  Cls0 <- ClsR
           ParOf <- McParOf  GridCls <- McGridCls  MatCls <- McMatCls
-          DbCls <- RDbCls  CopyCls <- RCopyCls  CallsOf <- NoCalls
+          DbCls <- RDbCls  CopyCls <- RCopyCls  CallsOf <- NoCalls  Unset0 <- NoUnset  Link0 <- LinkNone
 ACTION_CONSTRAINT EmitDb
 INIT Init
 NEXT Next
